@@ -789,12 +789,13 @@ class TrajectoryStore:
                     'declared for the associated files'
                 )
 
-        if self.indexable is None:
-            self.indexable = has_flight_id
-
-        # Maintain count of trajectories in store for indexing.
+        # Maintain count of trajectories in store for indexing. (The cache may
+        # still refuse the trajectory - it does not fit - so nothing else is
+        # changed before it has been accepted.)
         saved_index = self._next_index
         self._trajectories[saved_index] = trajectory
+        if self.indexable is None:
+            self.indexable = has_flight_id
         self._next_index += 1
 
         # If this is the first trajectory added to the store, we might need to
